@@ -6,7 +6,7 @@ CONF = {
         'tools/gen_schema.py (schema/*.json -> SchemaGen.v) and tools/gen_layout.py (specs-go/config.go -> LayoutGen.v: field types, json/yaml tag names, omitempty); '
         'the encoder doc_of_spec is tied to the layout by encoder_follows_layout / types_follow_layout and to encoding/json by comparing json.Marshal(spec) with it on every case',
         'lib_ok / lib_annots_ok state the consequences of library validity the proof uses (at least one device, no null list entries, k8s-valid annotations); that the '
-        'library implies them is checked on every accepted Spec of the run (and is to be proved from the C05 model: WF s -> lib_ok s)',
+        'library implies them is a theorem (wf_lib_ok: WF s -> lib_ok s /\\ lib_annots_ok s, from the C05 model of Spec.validate) and is also checked on every accepted Spec of the run',
         'the file routes (Cache.WriteSpec, cdi.ReadSpec, ValidateFile on .json / .yaml) pass through the unmodelled text layers and are established by execution',
     ],
     'assumptions': [
